@@ -1,6 +1,15 @@
 HOOK_COMMITS = ["d5fe92d", "HEAD~0 (see git log --grep='verif hooks' in /repo)"]
 
 ENGINES = [
+    {"name": "schedx", "path": "harness/schedx", "serves_properties": ["C05", "C06", "C16"],
+     "kind_free_text": "stateless DFS over thread schedules with iterative context bounding: a cooperative scheduler interposes pthread mutex/cond/"
+                       "create/join in the harness executable, one forked execution of the real engine / execution queues per schedule"},
+    {"name": "enumx", "path": "harness/enumx", "serves_properties": ["C13", "C14", "C15"],
+     "kind_free_text": "bounded-exhaustive enumeration of file-state pairs, (path, root) pairs and key/value encodings against reference models"},
+    {"name": "parsex", "path": "harness/parsex", "serves_properties": ["C19", "C11"],
+     "kind_free_text": "bounded-exhaustive enumeration of parser inputs in exact-size buffers under AddressSanitizer / guard pages; codec round trips"},
+    {"name": "ninjax", "path": "harness/ninjax", "serves_properties": ["C17"],
+     "kind_free_text": "bounded-exhaustive manifest grammar, differential against /usr/bin/ninja 1.11.1; shell-quoting round trip through /bin/sh"},
     {"name": "enginex", "path": "harness/enginex", "serves_properties": ["C01", "C02", "C03", "C05", "C06", "C07"],
      "kind_free_text": "explicit-state breadth-first search over event histories; every transition runs the real BuildEngine (and SQLite BuildDB) "
                        "under a chooser that owns completion order, delivery points and cancellation points; reference evaluator + shadow record as oracles"},
@@ -49,6 +58,51 @@ TEXT = {
                     "report whose list starts at the requested key, follows real wait-for edges and closes; no cycle in requests+recorded dependencies means no report, no stall, success.",
             "note": "Which of several cycles is reported is not constrained."},
 }
+
+TEXT.update({
+    "C11": {"design_ref": "DESIGN.md §5 C11",
+            "technique": "bounded-exhaustive enumeration of dependency files (all path strings over the format's special characters x layouts, all truncations) on the real parsers under ASan",
+            "text": "All path strings up to length 4 (6 thorough) over {a,' ','#','$','\\',':','/','.'} and pairs of them, rendered with the documented escaping into "
+                    "single-rule, two-rule, continuation and CRLF layouts, must be recovered byte for byte by MakefileDepsParser; all dependency-info files with up to 2 (3) "
+                    "records over a hostile operand alphabet likewise; every truncation and structural fault must be reported through the error callback.",
+            "note": "Codec part only so far: the history part (a later change of a discovered path re-executes the command) is being added with worldx."},
+    "C13": {"design_ref": "DESIGN.md §5 C13",
+            "technique": "exhaustive enumeration of all ordered pairs of file states x 3 file-system modes x 2 observers on real files",
+            "text": "63 (127 thorough) file states (missing, contents of several sizes incl. multi-buffer, two mtimes, inode kept/replaced, directory, symlink, dangling "
+                    "symlink) - all ordered pairs, in default, device-agnostic and checksum-only mode, through getFileInfo and getLinkInfo: unequal whenever the statement "
+                    "says so, equal when untouched, never the missing sentinel for an existing object; checksums compared with an independent MD5.",
+            "note": "tmpfs only; a change of device number alone cannot be produced."},
+    "C14": {"design_ref": "DESIGN.md §5 C14",
+            "technique": "exhaustive enumeration of all (path, root) string pairs up to length 6 (8) against a component-wise reference",
+            "text": "All 1.86M (477M thorough) absolute (path, root) pairs over {'/','a','b','.'} up to length 6 (8) are passed to the real pathIsPrefixedByPath and "
+                    "compared with a split-on-separator, drop-empty-components prefix test.",
+            "note": "Predicate part; the in-process stale-file-removal tool histories are being added with worldx."},
+    "C15": {"design_ref": "DESIGN.md §5 C15",
+            "technique": "exhaustive enumeration of keys/values of every kind over a byte alphabet; round-trip, canonicity and global injectivity oracles",
+            "text": "All 9 key kinds x names up to length 3 (4) over {'a','/',NUL,0xFF} x filter lists, all 18 value kinds x 0..3 outputs x FileInfo fields in "
+                    "{0,1,2^64-1} x signatures x string lists: decode(encode(v)) reproduces every accessor, re-encoding is identical, and a global map from "
+                    "bytes to abstract value never sees two values (injectivity across kinds).",
+            "note": "NUL inside StringList elements is outside the type's domain."},
+    "C16": {"design_ref": "DESIGN.md §4.3, §5 C16",
+            "technique": "preemption-bounded stateless model checking of the real LaneBasedExecutionQueue / SerialQueue under an interposing cooperative scheduler",
+            "text": "Four bodies (lane queue with 2 lanes and serial queue, each with and without a concurrent cancelAllJobs): 4 jobs incl. one High priority and one "
+                    "submitted from inside a job, then destruction; every schedule with at most 2 (3) preemptions / early timer firings (1 (2) for the canceller "
+                    "bodies) is executed: every job exactly once before the destructor returns, in-flight <= lanes, started/finished paired, no deadlock or lost wake-up, no thread left blocked.",
+            "note": "Queue half only so far; the subprocess behaviours (exit codes, signals, output volume, environment precedence) part is not built yet."},
+    "C17": {"design_ref": "DESIGN.md §5 C17",
+            "technique": "bounded-exhaustive differential testing against the reference implementation /usr/bin/ninja 1.11.1",
+            "text": "Every manifest with at most 2 (3) non-default features out of a 27-dimension grammar (path flavours incl. non-ASCII bytes, input classes, "
+                    "build/rule/file-level bindings, nested references, include/subninja, continuations, CRLF, comments, keyword-like identifiers) is loaded by "
+                    "both tools; outputs, the three input classes, expanded command, description, depfile, rspfile and rspfile_content of every build statement must agree; "
+                    "all strings up to length 4 over a shell-special alphabet must survive shellEscaped + /bin/sh.",
+            "note": "Trusted base: ninja 1.11.1 as the definition of Ninja's evaluation rules; manifests ninja rejects are skipped."},
+    "C19": {"design_ref": "DESIGN.md §5 C19",
+            "technique": "bounded-exhaustive enumeration of parser inputs in exact-size heap buffers under AddressSanitizer plus guard pages; lexer tiling oracle",
+            "text": "All Ninja token strings up to length 5 over a 16-token alphabet (+ raw byte strings) through 4 lexer modes, parser and loader; all Makefile-deps "
+                    "strings up to length 7 over 8 bytes; all dependency-info strings up to length 6 over 6 bytes; 19k YAML documents from a shape generator: must "
+                    "terminate, never read outside the buffer, report problems only via callbacks; tokens tile the input and EOF only at the true end.",
+            "note": "Inputs longer than the bounds are not covered (the statement's coverage-guided fuzzing is a different family)."},
+})
 
 NOT_APPLICABLE = {
     "C04": "check under construction in this round (crash-point enumerator crashx, DESIGN.md §4.4); not yet registered",
